@@ -71,6 +71,8 @@ def bead_sample(spec):
             fl = []
             for c in range(nch):
                 mu = rfi[c][j]
+                if c in spec.get('flat_channels', ()):
+                    mu = 40.0               # this channel does not resolve the populations at all
                 if mu is None:
                     mu = 0.5            # blank without autofluorescence: bottom of the detector
                 v = mu * math.exp(sigma * z[i, c])
@@ -110,12 +112,13 @@ def bead_sample(spec):
         values = [[float(e[0]), float(e[1])] + [from_channel(c, a0, fres[k]) for k, c in enumerate(e[2:2 + nch])] for e in events]
     else:
         events, values = [], []
+        dtc = 'D' if spec.get('container') == 'double' else 'F'
         for t, r in enumerate(rows):
             vals = [float(np.float32(v)) for v in r]
             vals = [min(v, 262143.0) for v in vals]
-            events.append([fcsgen.float_bits(v, 'F') for v in vals] + [fcsgen.float_bits(float(t), 'F')])
+            events.append([fcsgen.float_bits(v, dtc) for v in vals] + [fcsgen.float_bits(float(t), dtc)])
             values.append(vals)
-        lay = dict(datatype='F', bits=[32] * D, ranges=[262144] * D, names=names, pne=['0,0'] * D, events=events,
+        lay = dict(datatype=dtc, bits=[32 if dtc == 'F' else 64] * D, ranges=[262144] * D, names=names, pne=['0,0'] * D, events=events,
                    byteord='1,2,3,4', extra=extra)
     truth = dict(labels=labels, rfi=rfi, mef=mef, fl_names=names[2:2 + nch], values=values, n_pop=n_pop)
     return lay, truth
@@ -164,11 +167,12 @@ def cell_sample(spec):
                    pne=['0,0', '0,0'] + [pne_fl] * nch + ['0,0'], events=events, byteord='4,3,2,1', extra=extra)
     else:
         events = []
+        dtc = 'D' if spec.get('container') == 'double' else 'F'
         for t, r in enumerate(rows):
             vals = [min(float(np.float32(v)), 262143.0) for v in r]
             if spec.get('negatives') and t % 9 == 0:
                 vals[2] = -abs(vals[2]) * 0.01 - 1.0
-            events.append([fcsgen.float_bits(v, 'F') for v in vals] + [fcsgen.float_bits(float(t), 'F')])
-        lay = dict(datatype='F', bits=[32] * D, ranges=[262144] * D, names=names, pne=['0,0'] * D, events=events,
+            events.append([fcsgen.float_bits(v, dtc) for v in vals] + [fcsgen.float_bits(float(t), dtc)])
+        lay = dict(datatype=dtc, bits=[32 if dtc == 'F' else 64] * D, ranges=[262144] * D, names=names, pne=['0,0'] * D, events=events,
                    byteord='1,2,3,4', extra=extra)
     return lay
